@@ -1,9 +1,21 @@
 HOOK_COMMITS = []
 ENGINES = [
-    {"name": "kernel", "path": "mc/kernel.py", "serves_properties": ["C01", "C03", "C04", "C05", "C09", "C15", "C16", "C17", "C19"], "kind_free_text": "hand-written bounded exhaustive explorer: units enumerate a finite space (alphabet x bound), sharded over a fork pool; recorder counts evaluations/distinct cases/states/transitions/witnesses; replay files; known-findings triage"},
+    {"name": "kernel", "path": "mc/kernel.py", "serves_properties": ["C01", "C03", "C04", "C05", "C09", "C13", "C15", "C16", "C17", "C18", "C19"], "kind_free_text": "hand-written bounded exhaustive explorer: units enumerate a finite space (alphabet x bound), sharded over a fork pool; recorder counts evaluations/distinct cases/states/transitions/witnesses; replay files; known-findings triage"},
 ]
 NOT_YET = {}
 CHECKS = {
+    "C13": {
+        "level": "exploration",
+        "technique": "exhaustive enumeration of cubic/quadratic curves on control-point lattices x tolerance set, with an exact maximum-deviation oracle (polynomial root finding, rational re-decision near the bound)",
+        "text": "Every cubic with control points on the 3x3 (thorough 4x4) lattice, its scale/translation families, every ordered pair (thorough: triples) of an 81-curve sub-lattice, every quadratic spline of up to 4 segments, pen adapters and master lists built from them, across the tolerance set and all_quadratic/all_cubic. The oracle computes the true maximum same-parameter distance between each input piece and the output segment that replaces it (the measure the library documents), checks end points, equal segment counts across a joint conversion, and that ApproxNotFoundError is only raised when no candidate up to MAX_N fits.",
+        "note": "Decides the property on the lattices and tolerance set only (the property quantifies over a continuous space). Trusted: numpy root finding, with results within 1e-6 of the bound re-decided in exact rational arithmetic.",
+    },
+    "C18": {
+        "level": "exploration",
+        "technique": "exhaustive enumeration of ordered font lists from a generated pool, merged and observed by HarfBuzz per character and per short string",
+        "text": "Every ordered list of 2..3 (thorough 4) fonts from a pool built to force each merge decision (disjoint / identical-duplicate / different-duplicate characters, colliding glyph names, with and without GSUB/GPOS/GDEF, class kerning, contextual substitution, mark positioning, CFF) is merged, saved and reloaded. Every code point of the union must map to a glyph that looks and advances as in the first input supporting it, glyph names must be unique, mixed outline flavours must be rejected, and for inputs with a disjoint character set every string up to length 3 must shape as with that input alone (glyph identity by outline).",
+        "note": "Trusted: HarfBuzz 12.1. Pool fonts share one units-per-em; table mixes outside the pool are not covered.",
+    },
     "C04": {
         "level": "model_checking",
         "technique": "explicit enumeration of SFNTWriter / TTCollection call protocols (all tag sets, insertion orders, payload lengths, flavours) and of save configurations, judged by an independent spec reader (oracles/otspec.py)",
